@@ -61,6 +61,10 @@ type c18cmd struct {
 	level  slog.Level
 	msg    string
 	mask   int // kind 3
+	// reuse of caller-owned values (c18reuse.go)
+	pristine func() []slog.Attr // a fresh, structurally identical build of attrs (same LogValuers): the case text is read from it
+	share    int                // kind 2: != 0 = the Record is built on first use and the same Record is handed to later Handles
+	same     bool               // kinds 1, 4: the caller's slice itself is passed, not a copy
 }
 
 type c18stats struct {
@@ -70,6 +74,9 @@ type c18stats struct {
 	groupsNamed                               int
 	maxDepth                                  int
 	jsonAgree, jsonEmpty, jsonDiffer, jsonErr int
+	pending                                   map[*c18ctr]int64 // occurrences of each counting LogValuer read so far in the current command
+	reuse                                     bool              // the program reuses attributes holding counting LogValuers
+	mutated                                   bool              // a modification of the caller's values was already reported
 }
 
 // ---------- canonical trees ----------
@@ -222,6 +229,15 @@ func c18valueSX(c *Ctx, v slog.Value, st *c18stats, depth int) SX {
 		return L(I(2), c18attrsSX(c, v.Group(), st, depth+1))
 	case slog.KindLogValuer:
 		st.special = true
+		if ctr, ok := v.LogValuer().(*c18ctr); ok {
+			// the value of THIS resolution: occurrence j in a call made after n resolutions is result(n+j)
+			if st.pending == nil {
+				st.pending = map[*c18ctr]int64{}
+			}
+			st.pending[ctr]++
+			k := ctr.n + st.pending[ctr]
+			return L(I(3), c18valueSX(c, ctr.result(k, true), st, depth+1), I(ctr.id), Z(k))
+		}
 		return L(I(3), c18valueSX(c, v.LogValuer().LogValue(), st, depth+1))
 	default:
 		a := v.Any()
@@ -388,6 +404,27 @@ func c18runDyn(c *Ctx, mask int, name string, cmds []c18cmd, class string, enabl
 	ctx := context.Background()
 	xs := make([]SX, 0, len(cmds))
 	var outs []SX
+	shared := map[int]slog.Record{}
+	// the caller's values must be what they were before the call (snapshots taken just before)
+	intact := func(call string, attrs []slog.Attr, snap []c18snapT, recAttrs []slog.Attr, recSnap []c18snapT) {
+		d := c18snapDiff("attrs", attrs, snap)
+		if d == "" && recSnap != nil {
+			d = c18snapDiff("record", recAttrs, recSnap)
+		}
+		if d == "" {
+			return
+		}
+		c18mutated++
+		if st.mutated || len(c18viols) >= 3 {
+			return
+		}
+		st.mutated = true
+		replay := L(I(mask), Str(name), L(xs...))
+		if enabler != 0 {
+			replay = L(I(mask), Str(name), L(xs...), I(enabler))
+		}
+		c18viols = append(c18viols, c18viol{fmt.Sprintf("zapslog.Handler modified the caller's attributes during %s (last command of the replay): %s", call, d), replay})
+	}
 	defer func() {
 		input := L(I(mask), Str(name), L(xs...))
 		if enabler != 0 {
@@ -427,8 +464,19 @@ func c18runDyn(c *Ctx, mask int, name string, cmds []c18cmd, class string, enabl
 			}
 			st.derive++
 		case 1:
-			xs = append(xs, L(I(1), I(cm.parent), c18attrsSX(c, cm.attrs, st, 1)))
-			handlers = append(handlers, handlers[cm.parent].WithAttrs(c18copyAttrs(cm.attrs)))
+			st.pending = nil
+			src, arg := cm.attrs, c18copyAttrs(cm.attrs)
+			if cm.pristine != nil {
+				src = cm.pristine()
+				st.reuse = true
+			}
+			if cm.same {
+				arg = cm.attrs
+			}
+			xs = append(xs, L(I(1), I(cm.parent), c18attrsSX(c, src, st, 1)))
+			snap := c18snap(cm.attrs)
+			handlers = append(handlers, handlers[cm.parent].WithAttrs(arg))
+			intact("WithAttrs", cm.attrs, snap, nil, nil)
 			jh = append(jh, jh[cm.parent].WithAttrs(c18copyAttrs(cm.attrs)))
 			st.derive++
 		case 3:
@@ -443,21 +491,41 @@ func c18runDyn(c *Ctx, mask int, name string, cmds []c18cmd, class string, enabl
 			}
 			st.moves++
 		case 2, 4:
-			rec := slog.NewRecord(time.Time{}, cm.level, cm.msg, 0)
-			rec.AddAttrs(c18copyAttrs(cm.attrs)...)
-			var seen []slog.Attr
-			rec.Attrs(func(a slog.Attr) bool { seen = append(seen, a); return true })
+			st.pending = nil
+			rec, have := shared[cm.share]
+			if cm.share == 0 || !have {
+				rec = slog.NewRecord(time.Time{}, cm.level, cm.msg, 0)
+				rec.AddAttrs(c18copyAttrs(cm.attrs)...)
+				if cm.share != 0 {
+					shared[cm.share] = rec
+				}
+			}
+			seen := c18recordAttrs(rec)
+			if cm.pristine != nil {
+				// what the handler receives, read from values it has never seen
+				prec := slog.NewRecord(time.Time{}, cm.level, cm.msg, 0)
+				prec.AddAttrs(cm.pristine()...)
+				seen = c18recordAttrs(prec)
+				st.reuse = true
+			}
 			xs = append(xs, L(I(cm.kind), I(cm.parent), Z(int64(cm.level)), Str(cm.msg), c18attrsSX(c, seen, st, 1)))
 			h := handlers[cm.parent]
 			en := h.Enabled(ctx, cm.level)
 			buf.Reset()
+			snap, recSnap := c18snap(cm.attrs), c18snap(c18recordAttrs(rec))
 			var err error
-			if cm.kind == 2 {
+			switch {
+			case cm.kind == 2 && cm.share != 0:
+				err = h.Handle(ctx, rec) // the caller's Record, again
+			case cm.kind == 2:
 				err = h.Handle(ctx, rec.Clone())
-			} else {
+			case cm.same:
+				slog.New(h).LogAttrs(ctx, cm.level, cm.msg, cm.attrs...)
+			default:
 				// what a user of log/slog does: the Logger asks Enabled and calls Handle only if so
 				slog.New(h).LogAttrs(ctx, cm.level, cm.msg, c18copyAttrs(cm.attrs)...)
 			}
+			intact(map[int]string{2: "Handle", 4: "Logger.LogAttrs"}[cm.kind], cm.attrs, snap, c18recordAttrs(rec), recSnap)
 			st.handles++
 			if st.moves > 0 {
 				st.afterMove++
@@ -478,7 +546,10 @@ func c18runDyn(c *Ctx, mask int, name string, cmds []c18cmd, class string, enabl
 				outs = append(outs, L(Bool(en), I(1), I(lvl), Str(msg), Str(logger), tree))
 				// second opinion
 				jbuf.Reset()
-				if jerr := jh[cm.parent].Handle(ctx, rec.Clone()); jerr != nil {
+				if jerr := jh[cm.parent].Handle(ctx, rec.Clone()); st.reuse {
+					// the reference handler is one more user of the same values (it resolved the
+					// counting LogValuers once more: its values and shapes are those of a later use)
+				} else if jerr != nil {
 					st.jsonErr++
 					c18jsonErrSample = "Handle: " + jerr.Error()
 				} else if jt, perr := c18parseText(bytes.TrimRight(jbuf.Bytes(), "\n")); perr != nil {
@@ -528,6 +599,7 @@ type c18viol struct {
 }
 
 var c18viols []c18viol
+var c18mutated int // calls after which the caller's values were not what they were before
 var c18json [4]int
 var c18jsonSample, c18jsonSample2, c18jsonErrSample string
 
@@ -1029,7 +1101,9 @@ func c18(c *Ctx) {
 	r := NewRNG(c.Seed)
 	c18json = [4]int{}
 	c18jsonSample, c18jsonSample2, c18jsonErrSample = "", "", ""
+	c18mutated = 0
 	c18directed(c)
+	c18reuseDirected(c)
 	c18exhaustive(c)
 	n := 4000
 	if c.Thorough {
@@ -1039,6 +1113,8 @@ func c18(c *Ctx) {
 	c18siblings(c, r, n/10)
 	c18levelMoves(c)
 	c18dynamic(c, r, n/2)
+	c18reuse(c, r, n/4)
+	c.Info("calls_that_modified_caller_values", strconv.Itoa(c18mutated))
 	for _, v := range c18viols {
 		c.Viol(v.what, v.replay)
 	}
